@@ -9,7 +9,8 @@ RULE = ("process level: sessions of commands carrying up to 4 redirections drawn
         "line to its stdout and another to its stderr, optionally copies its stdin) and on output-producing builtins (minfd, alias, alias "
         "with a usage error), alone and in first / middle / last pipeline position, against targets that are absent, present with content "
         "(shared with earlier commands of the session) or unopenable (a directory, a missing parent); after every command a sentinel "
-        "records `$?`. Observed: the table each stage was started with (what 0, 1, 2 point to, access mode incl. append), the final content "
+        "records `$?`; builtins that are the whole line with EVERY redirection list of length 1-2 (thorough: 1-3) over > >> 1> 2> 2>> 2>&1 1>&2 >&2 plus "
+        "random lists of length 3-4. Observed: the table each stage was started with (what 0, 1, 2 point to, access mode incl. append), the final content "
         "of every file in the directory, the stdout / stderr of the whole session, what each stage read from its stdin. In-process: "
         "tokens_to_redirections on rendered redirection lists. non-trivial = distinct session shapes (digits erased)")
 TRUSTED = ["the descriptor world of Model/Kernel.lean and the helper semantics of Model/FdSession.lean (who writes which line where) are models of Linux and of helpers/fdstage.c, validated only by this stream"]
@@ -63,6 +64,8 @@ def process(tier, rng, cicada):
     for i in range(n):
         prof = "redir" if i % 3 else "mixed"
         cases.append(fdsess.make_case(fdsess.gen_items(r, prof, 1 + r.below(4), maxst=3)))
+    # builtins that are the whole line, with every short redirection list (the builtin path has its own left-to-right walk)
+    cases += [fdsess.make_case(items, meta={"builtin_lists": True}) for items in fdsess.builtin_redir_sessions(r, tier)]
     cases += fdsess.corpus_cases()
     for i, c in enumerate(cases):
         c.id = "p%d" % i
